@@ -15,6 +15,7 @@ import sys
 import time
 
 HERE = os.path.dirname(os.path.abspath(__file__))
+OUT = os.environ.get("PVC_OUT", HERE)      # (scratch runs of the self-test tools write their evidence elsewhere)
 sys.path.insert(0, HERE)
 os.chdir(HERE)
 
@@ -100,7 +101,7 @@ def main():
     for o in failed:
         groups.setdefault(o["norm"], []).append(o)
     violations, known, newfail = [], [], []
-    os.makedirs(os.path.join(HERE, "replays", pid), exist_ok=True)
+    os.makedirs(os.path.join(OUT, "replays", pid), exist_ok=True)
     for name, os_ in sorted(groups.items()):
         f = PM.match_finding(findings, pid, name)
         if f is not None:
@@ -166,7 +167,7 @@ def main():
         if cex:
             replay["counterexample"] = cex
             suffix = ""
-        json.dump(replay, open(os.path.join(HERE, path), "w"), indent=1, default=str)
+        json.dump(replay, open(os.path.join(OUT, path), "w"), indent=1, default=str)
         out_lines.append("VIOLATION property=%s replay=%s%s" % (pid, path, suffix))
         rc = 1
     if rc == 0 and (undecided or newfail):
@@ -195,7 +196,7 @@ def main():
         out_lines.append("CHECKER-ERROR an independent native demonstration of this property fails on this tree although every "
                          "obligation is discharged: %s" % ", ".join(demos_bad))
         rc = 3
-    survived = [m for m, st in selftest.get("mutants", {}).items() if st not in ("KILLED", "KILLED-other")]
+    survived = [m for m, st in selftest.get("mutants", {}).items() if st not in ("KILLED", "KILLED-other", "OK-equivalent")]
     if survived and rc == 0:
         out_lines.append("CHECKER-ERROR seeded mutants not killed (contract too weak or engine unsound): %s" % ", ".join(survived))
         rc = 3
@@ -240,8 +241,8 @@ def main():
         "wall_s": round(wall, 2),
         "violations": len(violations),
     }
-    os.makedirs(os.path.join(HERE, "evidence"), exist_ok=True)
-    json.dump(ev, open(os.path.join(HERE, "evidence", pid + ".json"), "w"), indent=1, default=str)
+    os.makedirs(os.path.join(OUT, "evidence"), exist_ok=True)
+    json.dump(ev, open(os.path.join(OUT, "evidence", pid + ".json"), "w"), indent=1, default=str)
     for line in out_lines:
         print(line)
     print("%s: %d obligations, %d discharged, %d known-finding, %d violation group(s), %.1fs, exit %d"
